@@ -893,7 +893,7 @@ pub const PRELUDE_ALL: &[&str] = &[
   "true", "bool", "nil", "null", "undefined",
 ];
 
-pub const TEXT_POOL: &[&str] = &["a", "b", "k", "key", "x y", "", "é", "q\"uote", "back\\slash", "semi;colon", "line\nbreak", "tab\t", "😀", "'single'", "a/b", "0", "null"];
+pub const TEXT_POOL: &[&str] = &["a", "b", "k", "key", "x y", "", "é", "q\"uote", "back\\slash", "semi;colon", "line\nbreak", "tab\t", "😀", "'single'", "a/b", "0", "null", "\\u", "C:\\users\\new", "\\\\uD800", "\\\""];
 
 impl Profile {
   /// the whole grammar, syntactically (parser-level properties)
